@@ -149,9 +149,122 @@ def check_pair(sel1, sel2, roots, rec=None):
                  sample=lambda: {"plan": T.plan_brief(roots), "selectors": [t1, t2], "events": events[:6]})
 
 
+def handoff_trace(hand):
+    """Reference trace of `gst(S); gco(C)`: the generator G is started inside S (its first segment
+    runs under S) and advanced inside C (its second segment runs under C).  The one real
+    activation of G is modelled as two Acts, G1 under S and G2 under C; G2 inherits the latest
+    bindings of G1 (copies whose times are returned so that they are not taken for events)."""
+    tr = M.Trace()
+    S, C, Gn = hand["s"], hand["c"], hand["g"]
+
+    def enter(node, fn, parent):
+        act = M.Act(len(tr.acts), fn, parent, node)
+        tr.acts.append(act)
+        tr.binds.append(M.Bind(tr.tick(), act, "#enter", True))
+        tr.binds.append(M.Bind(tr.tick(), act, "node", node))
+        tr.binds.append(M.Bind(tr.tick(), act, "u", node["u0"]))
+        tr.binds.append(M.Bind(tr.tick(), act, "w", node["w0"]))
+        return act
+
+    def leave(act, node):
+        tr.binds.append(M.Bind(tr.tick(), act, "#value", node["ret"]))
+        tr.binds.append(M.Bind(tr.tick(), act, "#exit", True))
+        tr.exits.append((tr.tick(), act, "return", node["ret"]))
+
+    s_act = enter(S, "gst", None)
+    g1 = enter(Gn, "ga", s_act)
+    M.simulate(Gn["pre"], base=g1, trace=tr)
+    tr.binds.append(M.Bind(tr.tick(), g1, "#yield", Gn["u0"]))
+    M.simulate(S["pre"], base=s_act, trace=tr)
+    leave(s_act, S)
+    c_act = enter(C, "gco", None)
+    M.simulate(C["pre"], base=c_act, trace=tr)
+    g2 = M.Act(len(tr.acts), "ga", c_act, Gn)
+    tr.acts.append(g2)
+    copies = set()
+    for var in ("node", "u", "w"):
+        last = [b for b in tr.binds if b.act is g1 and b.var == var][-1]
+        t = tr.tick()
+        copies.add(t)
+        tr.binds.append(M.Bind(t, g2, var, last.value))
+    tr.binds.append(M.Bind(tr.tick(), g2, "#receive", None))
+    if Gn["ru"] is not None:
+        tr.binds.append(M.Bind(tr.tick(), g2, "u", Gn["ru"]))
+    if Gn["rw"] is not None:
+        tr.binds.append(M.Bind(tr.tick(), g2, "w", Gn["rw"]))
+    M.simulate(Gn["post"], base=g2, trace=tr)
+    tr.binds.append(M.Bind(tr.tick(), g2, "#yield", Gn["rw"] if Gn["rw"] is not None else Gn["w0"]))
+    tr.binds.append(M.Bind(tr.tick(), g2, "#receive", None))
+    leave(g2, Gn)
+    M.simulate(C["post"], base=c_act, trace=tr)
+    leave(c_act, C)
+    return tr, copies
+
+
+def check_handoff(sel, hand, rec=None):
+    """A generator started by one activation and advanced by another: the calls the starter and
+    the consumer make themselves - before and after touching the generator - must match
+    call-path selectors exactly as if no generator were around."""
+    from ptera import probing
+    import copy as _copy
+
+    text = T.spelling(sel)
+    trace, copies = handoff_trace(hand)
+    from vlib import selgen as G
+
+    fkey = G.focus_cap(sel).alias
+    # Only bindings made by the starter, the consumer and the calls *they* make form a call tree
+    # in the sense of the property.  What the generator's own frame (and calls made from it)
+    # should match after it changed hands is not stated by C03: those events (node ids < 100)
+    # are left out on both sides.
+    own = lambda ev: ev[fkey] // 10 >= 100  # noqa
+    groups = [[e for e in g if own(e)] for t, g in M.immediate_events(sel, trace, with_time=True) if t not in copies]
+    groups = [g for g in groups if g]
+    box = []
+    roots = _copy.deepcopy([dict(hand["s"], fn="gst", g=hand["g"]), dict(hand["c"], fn="gco")])
+    roots[0]["box"] = roots[1]["box"] = box
+    F.DISPATCH.update(F.RAW)
+    try:
+        # the second selector only serves to have the generator function instrumented
+        with probing(text, "ga(!u as zz)", env=T.env()).values() as vals:
+            for r in roots:
+                F.DISPATCH[r["fn"]](r)
+        events = [e for e in vals if fkey in e and own(e)]
+    except BaseException as e:
+        for s in _states():
+            s.force_clean()
+        HY.force_global_clean()
+        raise PropertyViolation("run", f"handoff under probing({text!r}) raised {HY.describe_exc(e)}",
+                                extra={"bucket": "run:" + HY.exc_bucket(e)})
+    finally:
+        box.clear()
+    try:
+        compare_groups(groups, events, f"generator started in gst, advanced in gco; probing({text!r}) "
+                                       f"[generator {T.plan_brief([hand['g']])}, starter {T.plan_brief([hand['s']])}, "
+                                       f"consumer {T.plan_brief([hand['c']])}]")
+        probs = [p for s in _states() for p in s.is_clean()] + HY.global_state_problems()
+        if probs:
+            raise PropertyViolation("cleanup", f"after the probe block: {probs}")
+    finally:
+        for s in _states():
+            if s.is_clean():
+                s.force_clean()
+        if HY.global_state_problems():
+            HY.force_global_clean()
+    if rec is not None:
+        flat = [e for g in groups for e in g]
+        second = any(b.act.parent is not None and any(a.fn == "gco" for a in b.act.ancestors())
+                     and any(a.fn == "ga" for a in [b.act] + list(b.act.ancestors()))
+                     for b in trace.binds)
+        rec.case(h64(repr((hand, sel))), bool(flat) and second, {"delivery:handoff"} | ({"has-events"} if flat else {"no-events"}),
+                 sample=lambda: {"generator": T.plan_brief([hand["g"]]), "selector": text, "events": flat[:6]})
+
+
 def check_case(sel, roots, delivery, choices, rec=None):
     if delivery == "pair":
         return check_pair(sel[0], sel[1], roots, rec)
+    if delivery == "handoff":
+        return check_handoff(sel, roots, rec)
     text = T.spelling(sel, choices)
     trace = M.simulate(roots)
     groups = M.immediate_events(sel, trace)
@@ -241,7 +354,31 @@ def shard(cfg):
         st.just("pair"),
         st.none(),
     )
-    strat = st.one_of(strat, strat, strat, pair)
+    def renum(node, base):
+        k = [base]
+
+        def walk(n):
+            nid = k[0]
+            k[0] += 1
+            n = dict(n, id=nid, u0=nid * 10 + 1, w0=nid * 10 + 5, ret=nid * 10 + 9,
+                     ru=(nid * 10 + 2) if n["ru"] is not None else None,
+                     rw=(nid * 10 + 6) if n["rw"] is not None else None, raises=False)
+            n["pre"] = [walk(c) for c in n["pre"]]
+            n["post"] = [walk(c) for c in n["post"]]
+            return n
+
+        return walk(node)
+
+    small = T.plan_strategy(max_nodes=4, max_depth=3, fns=["fa", "fb", "fc"], raising=False).map(lambda r: r[0])
+    hand = st.tuples(small, small, small).map(
+        # (the generator itself makes no calls and is never named by the selector: what its own
+        # frame should match after it changed hands is not stated by the property)
+        lambda t: {"g": renum(dict(t[0], fn="ga", pre=[], post=[]), 0), "s": renum(dict(t[1], fn="gst", post=[]), 100),
+                   "c": renum(dict(t[2], fn="gco"), 200)})
+    handoff = st.tuples(
+        T.selector_strategy(max_depth=3, focus="yes", fns=["gst", "gco", "fa", "fb", "fc", "gco"]),
+        hand, st.just("handoff"), st.none())
+    strat = st.one_of(strat, strat, strat, strat, strat, pair, pair, handoff)
 
     def body(case):
         sel, roots, delivery, choices = case
